@@ -77,13 +77,42 @@ class Rat:
             c = c / list(s.den.t.values())[0]
             coef = Poly.atom(f"{c}", e) if c != 1 else Poly.const(1)
             return Rat(Poly({tuple((a, x * e) for a, x in k): Fr(1)}) * coef)
-        return Rat(Poly.atom("(" + s.key_str() + ")", e))
+        name = "(" + s.key_str() + ")"
+        _ROOT_REG[name] = s
+        return Rat(Poly.atom(name, e))
     def equals(s, o):
         o = R(o); return (s.num * o.den - o.num * s.den).is_zero()
     def key_str(s):
         return repr(s.num) if s.den.is_const() and list(s.den.t.values()) == [1] else f"[{s.num!r}]/[{s.den!r}]"
     def __repr__(s): return s.key_str()
 def R(x): return x if isinstance(x, Rat) else Rat(x)
+
+
+_ROOT_REG = {}      # atom name "(<normal form>)" of a non-monomial base raised to a fractional power -> the base
+
+
+def expand_roots(r):
+    """Rewrite integer powers of registered root atoms by their bases:  ((X)^(1/2))^2 -> X.  Applied until nothing changes."""
+    def expand_poly(p):
+        out = Rat(0)
+        changed = False
+        for mono, coef in p.t.items():
+            term = Rat(Poly({(): coef}))
+            for a, e in mono:
+                if a in _ROOT_REG and Fr(e).denominator == 1:
+                    term = term * _ROOT_REG[a].pow(e)
+                    changed = True
+                else:
+                    term = term * Rat(Poly.atom(a, e))
+            out = out + term
+        return out, changed
+    for _ in range(6):
+        n, c1 = expand_poly(r.num)
+        d, c2 = expand_poly(r.den)
+        r = n / d
+        if not (c1 or c2):
+            break
+    return r
 
 ALIASES = {"np": "numpy"}
 FUNC_EQ = {"numpy.sqrt": ("pow", Fr(1, 2)), "numpy.square": ("pow", 2)}
